@@ -195,3 +195,39 @@ func (n *realNode) stop() {
 }
 
 func (n *realNode) udpAddr() *net.UDPAddr { return &net.UDPAddr{IP: n.ip, Port: n.port} }
+
+// scriptedPeer: a plain discv5 node on the in-memory link whose talk handler for one portal sub-protocol answers with
+// whatever bytes the run scripted - a peer that speaks the transport correctly and the protocol as it pleases.
+type scriptedPeer struct {
+	disc  *discover.UDPv5
+	ln    *enode.LocalNode
+	reply func(req []byte) []byte
+}
+
+func startScriptedPeer(mn *memNet, r *rand.Rand, ip net.IP, port int, proto portalwire.ProtocolId) *scriptedPeer {
+	key := keyFromSeed(r)
+	conn := mn.listen(ip, port)
+	db, err := enode.OpenDB("")
+	if err != nil {
+		panic(err)
+	}
+	ln := enode.NewLocalNode(db, key)
+	ln.SetStaticIP(ip)
+	ln.SetFallbackUDP(port)
+	ln.Set(portalwire.Tag)
+	disc, err := discover.ListenV5(conn, ln, discover.Config{PrivateKey: key})
+	if err != nil {
+		panic(err)
+	}
+	sp := &scriptedPeer{disc: disc, ln: ln}
+	disc.RegisterTalkHandler(string(proto), func(_ *enode.Node, _ *net.UDPAddr, msg []byte) []byte {
+		if sp.reply == nil {
+			return nil
+		}
+		return sp.reply(msg)
+	})
+	return sp
+}
+
+func (sp *scriptedPeer) node() *enode.Node { return sp.ln.Node() }
+func (sp *scriptedPeer) stop()             { sp.disc.Close() }
